@@ -1,4 +1,4 @@
-CONSTANTS P = 11  A = 1  B = 6  Gx = 2  Gy = 4  N = 13  Iterated = TRUE
+CONSTANTS P = 11  A = 1  B = 6  Gx = 2  Gy = 4  N = 13  Scope = "full"  Iterated = TRUE
 SPECIFICATION Spec
 INVARIANT GroupLaw
 CHECK_DEADLOCK FALSE
